@@ -323,7 +323,24 @@ def run_case(case):
                 # (a what-if height, a mast moved a few metres) - the run must use the tower it was given
                 import dataclasses as _dc2
 
-                tw = _dc2.replace(tw0, z_m=float(tw0.z_m * rng.uniform(0.85, 1.5)), x=float(tw0.x + rng.uniform(-30, 30)), y=float(tw0.y + rng.uniform(-30, 30)))
+                znew = float(tw0.z_m * rng.uniform(0.85, 1.5))
+                # (the copy must still be a valid set-up: under a friction-velocity forcing the roughness length derived for the new height
+                # has to stay well below it - in stable air it grows with the height; otherwise only the position differs)
+                if "ustar" in raw["met"] and "z0" not in raw["met"]:
+                    import math as _m3
+                    from vlib import gen as _g3
+
+                    def _at(v_, i_):
+                        return v_[i_] if isinstance(v_, list) else v_
+
+                    for i_ in range(nsteps):
+                        z0d_ = znew * _m3.exp(-0.4 * _at(raw["met"]["wind_speed"], i_) / _at(raw["met"]["ustar"], i_) + float(_g3.psi_m(znew / _at(raw["met"]["mol"], i_))))
+                        if not z0d_ < 0.3 * znew:
+                            znew = float(tw0.z_m)
+                            break
+                elif "z0" in raw["met"] and not raw["met"]["z0"] < 0.28 * znew:
+                    znew = float(tw0.z_m)
+                tw = _dc2.replace(tw0, z_m=znew, x=float(tw0.x + rng.uniform(-30, 30)), y=float(tw0.y + rng.uniform(-30, 30)))
                 copied = True
                 counters["towers_given_as_modified_copies"] = counters.get("towers_given_as_modified_copies", 0) + 1
             for i in range(nsteps):
